@@ -21,6 +21,7 @@ def run(ctx, R, tier):
     F = ctx.facts('default')
     from ..enginea import run_singular_only
     run_singular_only(R, F, lambda fn: 'track::sub' in fn or 'info::' in fn or 'glam::' in fn or 'listener' in fn, floor=5)
+    rigid(F, R)
     tb = F.body(TRACK + '::process')
     if not R.check(tb is not None, 'B.C15.nolistener', 'anchor', 'Track::process not found'):
         return
@@ -310,3 +311,39 @@ def constructors_ordered(F):
                 if not (cmp_ or mm):
                     return False
     return n > 0
+
+
+def rigid(F, R):
+    """"Unchanged by a rigid motion applied to listener and emitter together": the ears are fixed to the head - each ear
+    direction is the listener's orientation applied to a constant vector, each ear position is the listener's position plus
+    the orientation applied to a constant offset.  (Any other composition, e.g. a constant rotation applied AFTER the
+    orientation, turns the ears about a world axis and breaks the invariance for listeners that pitch or roll.)"""
+    from ..paths import parse_term
+    from ..rules import constant_term
+    QM = '<glam::Quat as std::ops::Mul<glam::Vec3>>::mul'
+    for fn, what in (('track::sub::listener_ear_directions', 'dir'), ('track::sub::listener_ear_positions', 'pos')):
+        b = F.body(fn)
+        if not R.check(b is not None, 'B.C15.rigid', 'anchor:' + what, '%s not found' % fn):
+            continue
+        rets = [str(p.ret) for p in explore(b) if p.end == 'return']
+        bad = None
+        if len(rets) != 1:
+            bad = '%d return paths' % len(rets)
+        else:
+            name, parts = parse_term(rets[0])
+            if name != 'tuple' or not parts or len(parts) != 2:
+                bad = 'returns %s' % rets[0][:80]
+            else:
+                for part in parts:
+                    n2, a2 = parse_term(part)
+                    if what == 'pos':
+                        if n2 != '<glam::Vec3 as std::ops::Add>::add' or not a2 or len(a2) != 2 or 'listener_position' not in a2:
+                            bad = 'an ear position is %s, not listener_position + orientation * offset' % part[:100]
+                            break
+                        rot = [x for x in a2 if x != 'listener_position'][0]
+                        n2, a2 = parse_term(rot)
+                    if n2 != QM or not a2 or a2[0] != 'listener_orientation' or not constant_term(a2[1]):
+                        bad = 'an ear %s is %s, not the listener orientation applied to a head-fixed constant vector' % (
+                            'direction' if what == 'dir' else 'offset', part[:120])
+                        break
+        R.check(bad is None, 'B.C15.rigid', what, '%s: %s' % (fn, bad), detail='orientation * constant (+ position)', where=b.file)
